@@ -411,7 +411,20 @@ def rule_negotiated(R):
     roles.clause_negotiated_per_connection(R, "init", ("send_quota", "max_send_quota"))
 
 
+def rule_reason(R):
+    """a failing PUBREC returns its window slot, a successful one does not: the split is ReasonCode::failed (MQTT 5 2.4: below 0x80) -- shared clause"""
+    roles.clause_reason_predicates(R, "reason")
+
+
+def rule_shared_rel(R):
+    """a failing PUBREC must not open a release exchange (its PUBCOMP would return a second window slot) -- C03's rule"""
+    from .c03 import rule_rel as _r
+    _r(R)
+
+
 def run(R):
+    R.rule("rel", rule_shared_rel)
+    R.rule("reason", rule_reason)
     R.rule("negotiated", rule_negotiated)
     R.rule("who", rule_who)
     R.rule("init", rule_init)
